@@ -498,6 +498,7 @@ def _mk_geometry(rng, target, mode, km, kd, n):
     c['opts']['hint'] = (float(s) if mode == 'hint' else float(2 * s) if mode == 'badhint' else
                          float(s) if rng.random() < 0.1 else None)
     c['target'], c['kw_missing'], c['kw_dups'] = target, km, kd
+    c['opts']['missing'] = c['opts']['dups'] = None     # not used by this kind: see kw_missing / kw_dups
     c['perm_seed'] = rng.randrange(1, 10**6) if rng.random() < 0.6 else None
     c['rows'], c['cols'], c['resc'], c['amt'] = rng.randint(1, 3), rng.randint(1, 3), None, None
     return c
